@@ -62,16 +62,16 @@ PROPS = {
     },
     "C12": {
         "level": "model_checking",
-        "technique": "stateless model checking of the real UnrestrictedAtomic (blackboard value cell) under a controlled scheduler with split user-side writes",
-        "legs": [{"ws": "mc", "bin": "h_blackboard"}, {"ws": "seq", "bin": "h_bbport"}],
+        "technique": "stateless model checking of the real UnrestrictedAtomic (blackboard value cell) under a controlled scheduler with split user-side writes, and of the real Writer / Reader entry handles of a blackboard service (copy and loan-style updates against concurrent get); bounded-exhaustive sequential port histories",
+        "legs": [{"ws": "mc", "bin": "h_blackboard"}, {"ws": "seq", "bin": "h_bbport"}, {"ws": "mc", "bin": "h_bbport_mt"}],
         "rule": "one case = (value type of 1..9 words, number and style of writer updates (store / two-step loan with the value written in two halves), "
                 "readers x loads); every schedule within the bounds is executed on the real code; outcome = version sequence each reader saw",
         "assumptions": IXMC_ASSUME + ["a reader's copy is separated from its counter load by the scheduling point after every atomic load; the writer's two-step update writes its value in two halves with an explicit scheduling point in between"],
         "design_ref": "DESIGN.md §3.1, §4 C12",
         "level_text": "All schedules of one writer (2-4 updates, copy and loan style) against 1-2 readers are executed on the real UnrestrictedAtomic up "
                       "to the stated bounds: every value read is one written value in one piece, versions never go backwards per reader, and a second "
-                      "producer is refused while the first lives. A sequential leg (h_bbport, seqx) enumerates all histories of writer / write-handle creation and refusal, copy and loan style updates and reads on the real Writer/Reader ports of a local blackboard service.",
-        "level_note": "trusted: ixmc scheduler granularity, view model; bounded: 1 writer, <=2 readers, <=4 updates, value sizes 1 byte..9 words, PB<=3 quick / <=5 thorough",
+                      "producer is refused while the first lives. A sequential leg (h_bbport, seqx) enumerates all histories of writer / write-handle creation and refusal, copy and loan style updates and reads on the real Writer/Reader ports of a local blackboard service. A port-level thread leg (h_bbport_mt) runs a writer entry handle (loan+copy, loan+write, copy updates) against a reader entry handle of a local_threadsafe service under every schedule to PB 2 (quick) / 4 (thorough).",
+        "level_note": "trusted: ixmc scheduler granularity, view model; bounded: 1 writer, <=2 readers, <=4 updates, value sizes 1 byte..9 words, PB<=3 quick / <=5 thorough; port-level thread leg: 3-word value, <=3 updates, 1 reader",
     },
     "C05": {
         "level": "model_checking",
